@@ -38,7 +38,7 @@ M = H.make_machine()
 ok = bad = uns = 0
 for name, want in exp.items():
     if rx and not rx.search(name): continue
-    key = [n for n in M.bodies if n == 'p_' + name or n.endswith('::p_' + name)]
+    key = [n for n in M.bodies if n in ('p_' + name, 'q_' + name) or n.endswith('::p_' + name) or n.endswith('::q_' + name)]
     if not key: print('MISSING', name); continue
     pid = os.fork()
     if pid == 0:
